@@ -462,4 +462,557 @@ theorem reproduceAll_rinv (o : EpochOpts W) (gen : Int) (sorted ss : List (Speci
       obtain ⟨H2, hr2, he2, hc2⟩ := ih _ _ _ _ (tail_of hss) hr1 h
       exact ⟨H2, hr2, he1.trans he2, hc1.trans hc2⟩
 
+/-! ### organisms only move around: the bookkeeping phases create no genome -/
+
+/-- every organism of `ss'` carries the genome (up to its id) of an organism of `ss` -/
+def GenomesFrom (ss ss' : List (Species W)) : Prop :=
+  ∀ s' ∈ ss', ∀ o' ∈ s'.orgs, ∃ s ∈ ss, ∃ o ∈ s.orgs, SameBinds o.genome o'.genome
+
+theorem GenomesFrom.refl (ss : List (Species W)) : GenomesFrom ss ss := fun s hs o ho => ⟨s, hs, o, ho, .refl _⟩
+theorem GenomesFrom.trans {a b c : List (Species W)} (h1 : GenomesFrom a b) (h2 : GenomesFrom b c) : GenomesFrom a c := by
+  intro s'' hs'' o'' ho''
+  obtain ⟨s', hs', o', ho', e'⟩ := h2 s'' hs'' o'' ho''
+  obtain ⟨s, hs, o, ho, e⟩ := h1 s' hs' o' ho'
+  exact ⟨s, hs, o, ho, e.trans e'⟩
+
+/-- species-wise: each species of `ss'` takes its organisms from one species of `ss` -/
+theorem GenomesFrom.of_species {ss ss' : List (Species W)}
+    (h : ∀ s' ∈ ss', ∃ s ∈ ss, ∀ o' ∈ s'.orgs, ∃ o ∈ s.orgs, o'.genome = o.genome) : GenomesFrom ss ss' := by
+  intro s' hs' o' ho'
+  obtain ⟨s, hs, hall⟩ := h s' hs'
+  obtain ⟨o, ho, e⟩ := hall o' ho'
+  exact ⟨s, hs, o, ho, by rw [e]; exact .refl _⟩
+
+def AllOrgs (φ : Bind → Prop) (ψ : Role → Prop) (ss : List (Species W)) : Prop := ∀ s ∈ ss, ∀ o ∈ s.orgs, AllB φ ψ o.genome
+
+theorem AllOrgs.from {φ : Bind → Prop} {ψ : Role → Prop} {ss ss' : List (Species W)} (h : AllOrgs φ ψ ss) (hf : GenomesFrom ss ss') :
+    AllOrgs φ ψ ss' := by
+  intro s' hs' o' ho'
+  obtain ⟨s, hs, o, ho, e⟩ := hf s' hs' o' ho'
+  exact (h s hs o ho).same e
+
+/-- every organism of the population lies in the history -/
+def Covered (H : List (Genome W)) (ss : List (Species W)) : Prop := AllOrgs (· ∈ binds H) (· ∈ roles H) ss
+
+theorem Covered.mono {H H' : List (Genome W)} {ss : List (Species W)} (h : Covered H ss) (he : Ext H H') : Covered H' ss :=
+  fun s hs o ho => GenomeIn.mono (h s hs o ho) he
+
+/-! #### sorting -/
+
+theorem go_mem {α} (less : α → α → Bool) (x : α) (revLeft acc : List α) :
+    ∀ y ∈ goInsertionSort.go less x revLeft acc, y = x ∨ y ∈ revLeft ∨ y ∈ acc := by
+  induction revLeft generalizing acc with
+  | nil => intro y hy; simp only [goInsertionSort.go, List.mem_cons] at hy; rcases hy with h | h; exact .inl h; exact .inr (.inr h)
+  | cons z zs ih =>
+    intro y hy
+    unfold goInsertionSort.go at hy
+    split at hy
+    · rcases ih _ y hy with h | h | h
+      · exact .inl h
+      · exact .inr (.inl (List.mem_cons_of_mem _ h))
+      · rcases List.mem_cons.mp h with rfl | h
+        · exact .inr (.inl List.mem_cons_self)
+        · exact .inr (.inr h)
+    · simp only [List.mem_append, List.mem_reverse, List.mem_cons] at hy
+      rcases hy with h | h | h
+      · exact .inr (.inl (List.mem_cons.mpr h))
+      · exact .inl h
+      · exact .inr (.inr h)
+
+theorem sort_mem {α} (less : α → α → Bool) (l : List α) : ∀ y ∈ goInsertionSort less l, y ∈ l := by
+  unfold goInsertionSort
+  suffices h : ∀ (init : List α), ∀ y ∈ l.foldl (fun sorted x => goInsertionSort.go less x sorted.reverse []) init, y ∈ init ∨ y ∈ l by
+    intro y hy; rcases h [] y hy with h | h; cases h; exact h
+  induction l with
+  | nil => intro init y hy; exact .inl hy
+  | cons x xs ih =>
+    intro init y hy
+    simp only [List.foldl_cons] at hy
+    rcases ih _ y hy with h | h
+    · rcases go_mem less x _ _ y h with h | h | h
+      · exact .inr (h ▸ List.mem_cons_self)
+      · exact .inl (List.mem_reverse.mp h)
+      · cases h
+    · exact .inr (List.mem_cons_of_mem _ h)
+
+theorem mem_modify {α} (f : α → α) (l : List α) (i : Nat) : ∀ x ∈ l.modify i f, x ∈ l ∨ ∃ y ∈ l, x = f y := by
+  induction l generalizing i with
+  | nil => intro x hx; simp at hx
+  | cons a t ih =>
+    intro x hx
+    cases i with
+    | zero =>
+      simp only [List.modify_zero_cons, List.mem_cons] at hx
+      rcases hx with rfl | hx
+      · exact .inr ⟨a, List.mem_cons_self, rfl⟩
+      · exact .inl (List.mem_cons_of_mem _ hx)
+    | succ i =>
+      simp only [List.modify_succ_cons, List.mem_cons] at hx
+      rcases hx with rfl | hx
+      · exact .inl List.mem_cons_self
+      · rcases ih i x hx with h | ⟨y, hy, e⟩
+        · exact .inl (List.mem_cons_of_mem _ h)
+        · exact .inr ⟨y, List.mem_cons_of_mem _ hy, e⟩
+
+/-! #### speciation -/
+
+theorem speciateOne_all {φ : Bind → Prop} {ψ : Role → Prop} (o : EpochOpts W) (p p' : Pop W) (org : Org W)
+    (h : speciateOne o p org = .ok p') (hc : AllOrgs φ ψ p.species) (ho : AllB φ ψ org.genome) :
+    AllOrgs φ ψ p'.species ∧ p'.reg = p.reg := by
+  have hnew : ∀ sp : Species W, sp.orgs = [org] → AllOrgs φ ψ (p.species ++ [sp]) := by
+    intro sp hsp s hs x hx
+    rcases List.mem_append.mp hs with hs | hs
+    · exact hc s hs x hx
+    · simp only [List.mem_singleton] at hs; subst hs
+      rw [hsp] at hx
+      simp only [List.mem_singleton] at hx; subst hx; exact ho
+  unfold speciateOne at h
+  simp only at h
+  split at h
+  · cases h; exact ⟨hnew _ rfl, rfl⟩
+  · split at h
+    · cases h
+    · split at h
+      · cases h
+        refine ⟨?_, rfl⟩
+        intro s hs x hx
+        rcases mem_modify _ _ _ s hs with hs | ⟨y, hy, rfl⟩
+        · exact hc s hs x hx
+        · rcases List.mem_append.mp hx with hx | hx
+          · exact hc y hy x hx
+          · simp only [List.mem_singleton] at hx; subst hx; exact ho
+      · cases h; exact ⟨hnew _ rfl, rfl⟩
+
+theorem speciateLoop_all {φ : Bind → Prop} {ψ : Role → Prop} (o : EpochOpts W) (p p' : Pop W) (orgs : List (Org W))
+    (h : speciateLoop o p orgs = .ok p') (hc : AllOrgs φ ψ p.species) (ho : ∀ x ∈ orgs, AllB φ ψ x.genome) :
+    AllOrgs φ ψ p'.species ∧ p'.reg = p.reg := by
+  induction orgs generalizing p with
+  | nil => simp only [speciateLoop, Except.ok.injEq] at h; subst h; exact ⟨hc, rfl⟩
+  | cons x xs ih =>
+    unfold speciateLoop at h
+    split at h
+    · cases h
+    · rename_i p1 h1
+      obtain ⟨c1, r1⟩ := speciateOne_all o p p1 x h1 hc (ho x List.mem_cons_self)
+      obtain ⟨c2, r2⟩ := ih p1 h c1 (tail_of ho)
+      exact ⟨c2, r2.trans r1⟩
+
+theorem speciate_all {φ : Bind → Prop} {ψ : Role → Prop} (o : EpochOpts W) (p p' : Pop W) (orgs : List (Org W))
+    (h : speciate o p orgs = .ok p') (hc : AllOrgs φ ψ p.species) (ho : ∀ x ∈ orgs, AllB φ ψ x.genome) :
+    AllOrgs φ ψ p'.species ∧ p'.reg = p.reg := by
+  unfold speciate at h
+  split at h
+  · cases h
+  · exact speciateLoop_all o p p' orgs h hc ho
+
+/-! #### the end of the epoch -/
+
+theorem renumber_from (l : List (Org W)) (k : Int) : ∀ o' ∈ renumber l k, ∃ o ∈ l, SameBinds o.genome o'.genome := by
+  induction l generalizing k with
+  | nil => intro o' h; simp [renumber] at h
+  | cons x xs ih =>
+    intro o' h
+    simp only [renumber, List.mem_cons] at h
+    rcases h with rfl | h
+    · exact ⟨x, List.mem_cons_self, ⟨rfl, rfl⟩⟩
+    · obtain ⟨o, ho, e⟩ := ih _ o' h
+      exact ⟨o, List.mem_cons_of_mem _ ho, e⟩
+
+theorem purgeOrAgeLoop_from (ss : List (Species W)) (k : Int) : GenomesFrom ss (purgeOrAgeLoop ss k) := by
+  induction ss generalizing k with
+  | nil => intro s' h; simp [purgeOrAgeLoop] at h
+  | cons s ss ih =>
+    intro s' hs' o' ho'
+    unfold purgeOrAgeLoop at hs'
+    split at hs'
+    · obtain ⟨s0, hs0, r⟩ := ih _ s' hs' o' ho'
+      exact ⟨s0, List.mem_cons_of_mem _ hs0, r⟩
+    · rcases List.mem_cons.mp hs' with rfl | hs'
+      · obtain ⟨o, ho, e⟩ := renumber_from _ _ o' ho'
+        exact ⟨s, List.mem_cons_self, o, ho, e⟩
+      · obtain ⟨s0, hs0, r⟩ := ih _ s' hs' o' ho'
+        exact ⟨s0, List.mem_cons_of_mem _ hs0, r⟩
+
+theorem map_filter_from (ss : List (Species W)) (keep : Species W → Org W → Bool) :
+    GenomesFrom ss (ss.map (fun s => { s with orgs := s.orgs.filter (keep s) })) := by
+  intro s' hs' o' ho'
+  obtain ⟨s, hs, rfl⟩ := List.mem_map.mp hs'
+  exact ⟨s, hs, o', (List.mem_filter.mp ho').1, .refl _⟩
+
+theorem finalize_from (p : Pop W) :
+    GenomesFrom p.species (finalizeReproduction p).species ∧ (finalizeReproduction p).reg = { p.reg with records := [] } := by
+  unfold finalizeReproduction purgeOrAgeSpecies purgeOldGeneration
+  exact ⟨(map_filter_from p.species (fun _ o => !p.organisms.contains o.uid)).trans (purgeOrAgeLoop_from _ 0), rfl⟩
+
+/-- forgetting the records keeps the invariant (the counters stay) -/
+theorem Inv.clear {reg : Reg W} {H : List (Genome W)} (h : Inv reg H) : Inv ({ reg with records := [] } : Reg W) H :=
+  { genes := h.genes, roles := h.roles,
+    compat := { recs := fun i hi => by simp at hi, innsNodup := by simp [regInns_def], nodesNodup := by simp [regNodes_def] },
+    above := { inns := h.above.inns, ids := h.above.ids, recInns := fun k hk => by simp [regInns_def] at hk,
+               recNodes := fun k hk => by simp [regNodes_def] at hk } }
+
+/-! ### the reproduction phase and the end of the epoch -/
+
+/-- every organism carries only bindings of the history `H0` or numbers above `(bi, bn)` -/
+def AllFresh (bi bn : Int) (H0 : List (Genome W)) (ss : List (Species W)) : Prop :=
+  AllOrgs (fun b => b ∈ binds H0 ∨ bi < b.1) (fun r => r ∈ roles H0 ∨ bn < r.1) ss
+
+theorem Covered.allFresh {H0 : List (Genome W)} {ss : List (Species W)} (h : Covered H0 ss) (bi bn : Int) : AllFresh bi bn H0 ss :=
+  fun s hs o ho => GenomeIn.fresh (h s hs o ho) bi bn
+
+theorem reproducePhase_rinv (o : EpochOpts W) (gen : Int) (p p' : Pop W) (ex : ExecState) (rs rs' : List Nat)
+    {H0 : List (Genome W)} (hinv : Inv p.reg H0) (hcov : Covered H0 p.species) (hnorec : p.reg.records = [])
+    (h : reproducePhase o gen p ex rs = .ok (p', rs')) :
+    ∃ H', Ext H0 H' ∧ Inv p'.reg H' ∧ Covered H' p'.species ∧ GenInv p.reg.nextInn p.reg.nextNode p'.reg ∧
+      AllFresh p.reg.nextInn p.reg.nextNode H0 p'.species ∧ CtrLe p.reg p'.reg := by
+  unfold reproducePhase at h
+  simp only at h
+  split at h
+  · cases h
+  · rename_i babies reg uid rs1 hall
+    split at h
+    · cases h
+    · split at h
+      · cases h
+      · rename_i p2 hsp
+        simp only [Except.ok.injEq, Prod.mk.injEq] at h
+        obtain ⟨rfl, _⟩ := h
+        have hsorted : ∀ sp ∈ ex.sortedIds.filterMap (fun i => p.species.find? (·.id == i)), ∀ org ∈ sp.orgs, GenomeIn H0 org.genome := by
+          intro sp hsp' org horg
+          obtain ⟨i, _, hi⟩ := List.mem_filterMap.mp hsp'
+          exact hcov sp (List.mem_of_find?_eq_some hi) org horg
+        have hr0 : RInv p.reg.nextInn p.reg.nextNode H0 H0 p.reg ([] : List (Org W)) :=
+          ⟨.refl _, hinv, .start _ hnorec, by simp, by simp⟩
+        obtain ⟨H1, hr1, he1, hc1⟩ := reproduceAll_rinv o gen _ p.species p.reg reg p.nextUid uid [] babies rs rs1 hcov hsorted hr0 hall
+        obtain ⟨c1, r1⟩ := speciate_all (φ := (· ∈ binds H1)) (ψ := (· ∈ roles H1)) o _ p2 babies hsp (hcov.mono he1) hr1.babiesIn
+        obtain ⟨c2, _⟩ := speciate_all o _ p2 babies hsp (hcov.allFresh p.reg.nextInn p.reg.nextNode) hr1.babiesFresh
+        simp only at r1
+        exact ⟨H1, he1, r1 ▸ hr1.inv, c1, r1 ▸ hr1.gen, c2, r1 ▸ hc1⟩
+
+/-- the C03 state of a population between generations: invariant for its registry and the history, every organism in
+    the history, no records -/
+structure PopC03 (H : List (Genome W)) (p : Pop W) : Prop where
+  inv : Inv p.reg H
+  cov : Covered H p.species
+  norec : p.reg.records = []
+
+theorem reproduce_finalize_c03 (o : EpochOpts W) (gen : Int) (p p2 : Pop W) (ex : ExecState) (rs rs' : List Nat)
+    {H0 : List (Genome W)} (hp : PopC03 H0 p) (h : reproducePhase o gen p ex rs = .ok (p2, rs')) :
+    ∃ H', Ext H0 H' ∧ PopC03 H' (finalizeReproduction p2) ∧
+      AllFresh p.reg.nextInn p.reg.nextNode H0 (finalizeReproduction p2).species ∧
+      CtrLe p.reg (finalizeReproduction p2).reg := by
+  obtain ⟨H1, he, hinv, hcov, _, hfr, hc⟩ := reproducePhase_rinv o gen p p2 ex rs rs' hp.inv hp.cov hp.norec h
+  obtain ⟨hfrom, hreg⟩ := finalize_from p2
+  refine ⟨H1, he, ⟨?_, AllOrgs.from hcov hfrom, by rw [hreg]⟩, AllOrgs.from hfr hfrom, ?_⟩
+  · rw [hreg]; exact hinv.clear
+  · rw [hreg]; exact hc
+
+/-! ### the preparation phase moves organisms around and edits their bookkeeping fields only -/
+
+/-- every organism of `s'` has the genome of an organism of `s` -/
+def OF (s s' : Species W) : Prop := ∀ o' ∈ s'.orgs, ∃ o ∈ s.orgs, o'.genome = o.genome
+/-- every species of `ss'` takes its organisms from one species of `ss` -/
+def SF (ss ss' : List (Species W)) : Prop := ∀ s' ∈ ss', ∃ s ∈ ss, OF s s'
+
+theorem OF.refl (s : Species W) : OF s s := fun o ho => ⟨o, ho, rfl⟩
+theorem OF.of_orgs_eq {s s' : Species W} (h : s'.orgs = s.orgs) : OF s s' := fun o ho => ⟨o, h ▸ ho, rfl⟩
+theorem OF.trans {a b c : Species W} (h1 : OF a b) (h2 : OF b c) : OF a c := by
+  intro o'' ho''
+  obtain ⟨o', ho', e'⟩ := h2 o'' ho''
+  obtain ⟨o, ho, e⟩ := h1 o' ho'
+  exact ⟨o, ho, e'.trans e⟩
+theorem SF.refl (ss : List (Species W)) : SF ss ss := fun s hs => ⟨s, hs, .refl s⟩
+theorem SF.trans {a b c : List (Species W)} (h1 : SF a b) (h2 : SF b c) : SF a c := by
+  intro s'' hs''
+  obtain ⟨s', hs', e'⟩ := h2 s'' hs''
+  obtain ⟨s, hs, e⟩ := h1 s' hs'
+  exact ⟨s, hs, e.trans e'⟩
+theorem SF.of_subset {ss ss' : List (Species W)} (h : ∀ s ∈ ss', s ∈ ss) : SF ss ss' := fun s hs => ⟨s, h s hs, .refl s⟩
+theorem SF.map {ss : List (Species W)} (f : Species W → Species W) (h : ∀ s, OF s (f s)) : SF ss (ss.map f) := by
+  intro s' hs'
+  obtain ⟨s, hs, rfl⟩ := List.mem_map.mp hs'
+  exact ⟨s, hs, h s⟩
+theorem SF.modify {ss : List (Species W)} (f : Species W → Species W) (i : Nat) (h : ∀ s, OF s (f s)) : SF ss (ss.modify i f) := by
+  intro s' hs'
+  rcases mem_modify f ss i s' hs' with h1 | ⟨y, hy, rfl⟩
+  · exact ⟨s', h1, .refl _⟩
+  · exact ⟨y, hy, h y⟩
+theorem SF.cons {a b : Species W} {ss ss' : List (Species W)} (h1 : OF a b) (h2 : SF ss ss') : SF (a :: ss) (b :: ss') := by
+  intro s' hs'
+  rcases List.mem_cons.mp hs' with rfl | hs'
+  · exact ⟨a, List.mem_cons_self, h1⟩
+  · obtain ⟨s, hs, e⟩ := h2 s' hs'
+    exact ⟨s, List.mem_cons_of_mem _ hs, e⟩
+theorem SF.genomesFrom {ss ss' : List (Species W)} (h : SF ss ss') : GenomesFrom ss ss' :=
+  GenomesFrom.of_species (fun s' hs' => by obtain ⟨s, hs, e⟩ := h s' hs'; exact ⟨s, hs, e⟩)
+
+theorem setTopOrg_of (s : Species W) (f : Org W → Org W) (hf : ∀ t, (f t).genome = t.genome) : OF s (setTopOrg s f) := by
+  unfold setTopOrg
+  split
+  · exact .refl _
+  · rename_i o os he
+    intro o' ho'
+    simp only [List.mem_cons] at ho'
+    rcases ho' with rfl | ho'
+    · exact ⟨o, by rw [he]; exact List.mem_cons_self, hf o⟩
+    · exact ⟨o', by rw [he]; exact List.mem_cons_of_mem _ ho', rfl⟩
+
+theorem setTopOrg_of' (s s' : Species W) (f : Org W → Org W) (h : s'.orgs = (setTopOrg s f).orgs)
+    (hf : ∀ t, (f t).genome = t.genome) : OF s s' := (setTopOrg_of s f hf).trans (.of_orgs_eq h)
+
+theorem markOrgs_from (n : Int) (l : List (Org W)) (i : Nat) : ∀ o' ∈ markOrgs n l i, ∃ o ∈ l, o'.genome = o.genome := by
+  induction l generalizing i with
+  | nil => intro o' h; simp [markOrgs] at h
+  | cons x xs ih =>
+    intro o' h
+    simp only [markOrgs, List.mem_cons] at h
+    rcases h with rfl | h
+    · exact ⟨x, List.mem_cons_self, rfl⟩
+    · obtain ⟨o, ho, e⟩ := ih _ o' h
+      exact ⟨o, List.mem_cons_of_mem _ ho, e⟩
+
+theorem adjustFitness_of (o : EpochOpts W) (s s' : Species W) (h : adjustFitness o s = .ok s') : OF s s' := by
+  unfold adjustFitness at h
+  simp only at h
+  split at h
+  · cases h
+  · rename_i top rest hsort
+    simp only [Except.ok.injEq] at h
+    subst h
+    intro o' ho'
+    simp only at ho'
+    obtain ⟨o1, ho1, e1⟩ := markOrgs_from _ _ _ o' ho'
+    have ho2 := sort_mem _ _ o1 ho1
+    obtain ⟨o2, ho2', rfl⟩ := List.mem_map.mp ho2
+    exact ⟨o2, ho2', e1⟩
+
+theorem adjustAll_sf (o : EpochOpts W) (ss ss' : List (Species W)) (h : adjustAll o ss = .ok ss') : SF ss ss' := by
+  induction ss generalizing ss' with
+  | nil => simp only [adjustAll, Except.ok.injEq] at h; subst h; exact .refl _
+  | cons s ss ih =>
+    unfold adjustAll at h
+    split at h
+    · cases h
+    · rename_i s1 h1
+      split at h
+      · cases h
+      · rename_i ss1 h2
+        simp only [Except.ok.injEq] at h
+        subst h
+        exact .cons (adjustFitness_of o s s1 h1) (ih ss1 h2)
+
+theorem assignQuotas_sf (ss : List (Species W)) (skim : W) (tot : Int) : SF ss (assignQuotas ss skim tot).1 := by
+  induction ss generalizing skim tot with
+  | nil => simp only [assignQuotas]; exact .refl _
+  | cons s ss ih =>
+    simp only [assignQuotas]
+    exact .cons (.of_orgs_eq rfl) (ih _ _)
+
+theorem fixupQuotas_sf (ss : List (Species W)) (a b : Int) : SF ss (fixupQuotas ss a b) := by
+  unfold fixupQuotas
+  split
+  · split
+    · exact .refl _
+    · split
+      · exact (SF.map (fun s : Species W => { s with expectedOffspring := 0 }) (fun s => .of_orgs_eq rfl)).trans
+          (SF.modify (fun s : Species W => { s with expectedOffspring := b }) _ (fun s => .of_orgs_eq rfl))
+      · exact SF.modify (fun s : Species W => { s with expectedOffspring := s.expectedOffspring + 1 }) _ (fun s => .of_orgs_eq rfl)
+  · exact .refl _
+
+theorem purgeZero_sf (p : Pop W) : SF p.species (purgeZeroOffspringSpecies p).species ∧ (purgeZeroOffspringSpecies p).reg = p.reg := by
+  unfold purgeZeroOffspringSpecies
+  simp only
+  refine ⟨?_, trivial⟩
+  refine SF.trans (SF.map _ (fun s => ?_)) (SF.trans (assignQuotas_sf _ _ _) (SF.trans (fixupQuotas_sf _ _ _)
+    (SF.of_subset (fun s hs => (List.mem_filter.mp hs).1))))
+  intro o' ho'
+  obtain ⟨o, ho, rfl⟩ := List.mem_map.mp ho'
+  refine ⟨o, ho, ?_⟩
+  split <;> rfl
+
+theorem deltaCoding_sf (sorted sorted' : List (Species W)) (o : EpochOpts W) (h : deltaCoding sorted o = .ok sorted') :
+    SF sorted sorted' := by
+  unfold deltaCoding at h
+  simp only at h
+  split at h
+  · cases h
+  · split at h
+    · cases h
+    · simp only [Except.ok.injEq] at h
+      subst h
+      exact .cons (setTopOrg_of' _ _ _ rfl (fun _ => rfl)) (.refl _)
+  · split at h
+    · cases h
+    · simp only [Except.ok.injEq] at h
+      subst h
+      exact .cons (setTopOrg_of' _ _ _ rfl (fun _ => rfl))
+        (.cons (setTopOrg_of' _ _ _ rfl (fun _ => rfl)) (SF.map _ (fun s => .of_orgs_eq rfl)))
+
+theorem stealLoop_sf (n : Int) (ss : List (Species W)) (st : Int) : SF ss (stealLoop n ss st).1 := by
+  induction ss generalizing st with
+  | nil => simp only [stealLoop]; exact .refl _
+  | cons s ss ih =>
+    unfold stealLoop
+    split
+    · split
+      · split
+        · exact .cons (.of_orgs_eq rfl) (ih _)
+        · exact .cons (.of_orgs_eq rfl) (ih _)
+      · exact .cons (.refl _) (ih _)
+    · exact .refl _
+
+theorem giveLoop_sf (o : EpochOpts W) (blocks : List Int) (ss ss' : List (Species W)) (bi : Nat) (st st' : Int) (rs rs' : List Nat)
+    (h : giveLoop o blocks ss bi st rs = .ok ((ss', st'), rs')) : SF ss ss' := by
+  induction ss generalizing ss' bi st rs st' rs' with
+  | nil =>
+    simp only [giveLoop, Except.ok.injEq, Prod.mk.injEq] at h
+    obtain ⟨⟨rfl, _⟩, _⟩ := h
+    exact .refl _
+  | cons s ss ih =>
+    unfold giveLoop at h
+    split at h
+    · split at h
+      · cases h
+      · rename_i rest st1 rs1 hrec
+        simp only [Except.ok.injEq, Prod.mk.injEq] at h
+        obtain ⟨⟨rfl, _⟩, _⟩ := h
+        exact .cons (.refl _) (ih _ _ _ _ _ _ hrec)
+    · simp only at h
+      split at h
+      · cases h
+      · rename_i s1 st1 rs1 hstep
+        have hs1 : OF s s1 := by
+          split at hstep
+          · simp only [Except.ok.injEq, Prod.mk.injEq] at hstep
+            obtain ⟨⟨rfl, _⟩, _⟩ := hstep
+            exact setTopOrg_of' _ _ _ rfl (fun _ => rfl)
+          · split at hstep
+            · split at hstep
+              · cases hstep
+              · split at hstep
+                · split at hstep
+                  · simp only [Except.ok.injEq, Prod.mk.injEq] at hstep
+                    obtain ⟨⟨rfl, _⟩, _⟩ := hstep
+                    exact setTopOrg_of' _ _ _ rfl (fun _ => rfl)
+                  · simp only [Except.ok.injEq, Prod.mk.injEq] at hstep
+                    obtain ⟨⟨rfl, _⟩, _⟩ := hstep
+                    exact setTopOrg_of' _ _ _ rfl (fun _ => rfl)
+                · simp only [Except.ok.injEq, Prod.mk.injEq] at hstep
+                  obtain ⟨⟨rfl, _⟩, _⟩ := hstep
+                  exact .refl _
+            · simp only [Except.ok.injEq, Prod.mk.injEq] at hstep
+              obtain ⟨⟨rfl, _⟩, _⟩ := hstep
+              exact .refl _
+        split at h
+        · simp only [Except.ok.injEq, Prod.mk.injEq] at h
+          obtain ⟨⟨rfl, _⟩, _⟩ := h
+          exact .cons hs1 (.refl _)
+        · split at h
+          · cases h
+          · rename_i rest st2 rs2 hrec
+            simp only [Except.ok.injEq, Prod.mk.injEq] at h
+            obtain ⟨⟨rfl, _⟩, _⟩ := h
+            exact .cons hs1 (ih _ _ _ _ _ _ hrec)
+
+theorem giveBabies_sf (sorted sorted' : List (Species W)) (o : EpochOpts W) (rs rs' : List Nat)
+    (h : giveBabiesToTheBest sorted o rs = .ok (sorted', rs')) : SF sorted sorted' := by
+  unfold giveBabiesToTheBest at h
+  simp only at h
+  have h0 : SF sorted (stealLoop o.babiesStolen sorted.reverse 0).1.reverse :=
+    SF.trans (SF.of_subset (fun s hs => List.mem_reverse.mp hs)) (SF.trans (stealLoop_sf _ _ _) (SF.of_subset (fun s hs => List.mem_reverse.mp hs)))
+  split at h
+  · cases h
+  · rename_i l left rs1 hg
+    have h1 := giveLoop_sf _ _ _ _ _ _ _ _ _ hg
+    split at h
+    · split at h
+      · cases h
+      · split at h
+        · cases h
+        · simp only [Except.ok.injEq, Prod.mk.injEq] at h
+          obtain ⟨rfl, _⟩ := h
+          exact h0.trans (h1.trans (.cons (setTopOrg_of' _ _ _ rfl (fun _ => rfl)) (.refl _)))
+    · simp only [Except.ok.injEq, Prod.mk.injEq] at h
+      obtain ⟨rfl, _⟩ := h
+      exact h0.trans h1
+
+theorem writeBack_sf {base species updated : List (Species W)} (h1 : SF base species) (h2 : SF base updated) :
+    SF base (writeBack species updated) := by
+  intro s' hs'
+  unfold writeBack at hs'
+  obtain ⟨s, hs, rfl⟩ := List.mem_map.mp hs'
+  cases hf : updated.find? (·.id == s.id) with
+  | none => simp only [Option.getD_none]; exact h1 s hs
+  | some u => simp only [Option.getD_some]; exact h2 u (List.mem_of_find?_eq_some hf)
+
+theorem purgeOrganisms_sf (p : Pop W) : SF p.species (purgeOrganisms p).species ∧ (purgeOrganisms p).reg = p.reg := by
+  unfold purgeOrganisms
+  refine ⟨SF.map _ (fun s => ?_), rfl⟩
+  intro o' ho'
+  exact ⟨o', (List.mem_filter.mp ho').1, rfl⟩
+
+theorem redistributed_sf (c1 c2 : Prop) [Decidable c1] [Decidable c2] (sorted1 : List (Species W)) (o : EpochOpts W) (e0 : Int)
+    (rs : List Nat) (sorted2 : List (Species W)) (ehlc : Int) (rs' : List Nat)
+    (h : (if c1 then
+            match deltaCoding sorted1 o with
+            | .error e => .error e
+            | .ok l => .ok ((l, 0), rs)
+          else if c2 then
+            match giveBabiesToTheBest sorted1 o rs with
+            | .error e => .error e
+            | .ok (l, rs') => .ok ((l, e0), rs')
+          else .ok ((sorted1, e0), rs) : R (List (Species W) × Int)) = .ok ((sorted2, ehlc), rs')) : SF sorted1 sorted2 := by
+  split at h
+  · split at h
+    · cases h
+    · rename_i l hd
+      simp only [Except.ok.injEq, Prod.mk.injEq] at h
+      obtain ⟨⟨rfl, _⟩, _⟩ := h
+      exact deltaCoding_sf _ _ _ hd
+  · split at h
+    · split at h
+      · cases h
+      · rename_i l rs2 hgb
+        simp only [Except.ok.injEq, Prod.mk.injEq] at h
+        obtain ⟨⟨rfl, _⟩, _⟩ := h
+        exact giveBabies_sf _ _ _ _ _ hgb
+    · simp only [Except.ok.injEq, Prod.mk.injEq] at h
+      obtain ⟨⟨rfl, _⟩, _⟩ := h
+      exact .refl _
+
+theorem prepare_from (o : EpochOpts W) (p p1 : Pop W) (ex : ExecState) (rs rs1 : List Nat)
+    (h : prepareForReproduction o p rs = .ok ((p1, ex), rs1)) : GenomesFrom p.species p1.species ∧ p1.reg = p.reg := by
+  unfold prepareForReproduction at h
+  split at h
+  · cases h
+  · rename_i species1 hadj
+    have hA : SF p.species species1 := adjustAll_sf o _ _ hadj
+    simp only at h
+    obtain ⟨hZ, hZr⟩ := purgeZero_sf ({ p with species := species1 } : Pop W)
+    split at h
+    · cases h
+    · rename_i best rest hsorted
+      split at h
+      · cases h
+      · rename_i top htop
+        split at h
+        · cases h
+        · rename_i sorted2 ehlc rs' hred
+          simp only [Except.ok.injEq, Prod.mk.injEq] at h
+          obtain ⟨⟨rfl, _⟩, _⟩ := h
+          have hS : SF (purgeZeroOffspringSpecies ({ p with species := species1 } : Pop W)).species (best :: rest) := by
+            rw [← hsorted]; exact SF.of_subset (sort_mem _ _)
+          have hS2 := redistributed_sf _ _ _ _ _ _ _ _ _ hred
+          rw [hsorted] at hS2
+          simp only [List.tail_cons] at hS2
+          have hS1 : SF (best :: rest) ((setTopOrg best (fun t => { t with isPopChampion := true })) :: rest) :=
+            .cons (setTopOrg_of _ _ (fun _ => rfl)) (.refl _)
+          have hbase1 : SF p.species (purgeZeroOffspringSpecies ({ p with species := species1 } : Pop W)).species := hA.trans hZ
+          have hbase2 : SF p.species sorted2 := hbase1.trans (hS.trans (hS1.trans hS2))
+          obtain ⟨hP, hPr⟩ := purgeOrganisms_sf ({ (purgeZeroOffspringSpecies ({ p with species := species1 } : Pop W)) with
+              highestFitness := _, epochsHighestLastChanged := ehlc,
+              species := writeBack (purgeZeroOffspringSpecies ({ p with species := species1 } : Pop W)).species sorted2 } : Pop W)
+          refine ⟨((writeBack_sf hbase1 hbase2).trans hP).genomesFrom, ?_⟩
+          rw [hPr]; exact hZr
+
 end GoNeat.C03
